@@ -33,6 +33,9 @@ CHECKS = {
  "C09": ("stratified (quick) / exhaustive-f32 (thorough) sweeps on 16 threads against glibc tgamma/erf, own dd digamma, exact factorials; identities",
          "gamma (positive, reflection with pole-proximity scaling, recurrence, factorial), beta (value, symmetry), digamma (value, recurrence, harmonic numbers), erf (value 1.5e-7, odd, bounded). Thorough enumerates every f32 argument in the stated ranges (8e9 evaluations); quick a stratified 1.8e7 subsample incl. neighbourhoods of integers, half-integers, 143 and 171.",
          "Trusts glibc tgamma/lgamma/erf to a few ulp; arguments within 1e-6|x| of a pole are skipped and counted.", "4/C09"),
+ "C10": ("trajectory reconstruction: objectives as serialisable expression trees interpreted over reverse::Var (library) and forward-mode duals (reference); published Adam/SGD recurrences for every budget k; LM descent / linear-model / covariance oracles",
+         "For every budget k = 0..k_max the library's k-th iterate must equal the published recurrence (Kingma-Ba Adam with bias correction; plain, momentum, Nesterov SGD) within 1e-10(1+|x|) on prefixes where six perturbed shadow references agree (chaotic continuations truncated, never failed); early stopping only once the reference has stopped changing (oscillating, sign-flip, tiny-gradient classes); determinism bit-exact; LM: RSS never above the start, least-squares solution reached on linear models within 100 steps, covariance s^2 (J'J)^-1. " + X,
+         "Objectives avoid two defects of the `reverse` dependency (f64/Var derivative weight, powi(0)); about 12 % of trajectory prefixes are truncated by the chaos gate.", "4/C10"),
  "C11": ("exhaustive permutation matrices of order <=6 + proptest matrix classes; dd reconstruction bounds, Bareiss exact determinant, inversion-count sign",
          "Cholesky structure/reconstruction/rejection of non-PD input, LU permutation/|l|<=1/reconstruction, slice-vs-Matrix identity, det sign and value (exact for integer matrices n<=12), triangular solves. Exhaustive on the 873 permutation matrices, sampled elsewhere.",
          "Rejection is only demanded for clearly non-PD input (lambda_min <= -1e-6 max|lambda|, non-positive diagonal, asymmetry >= 1e-3).", "4/C11"),
